@@ -169,10 +169,9 @@ end
 /-- non-vacuity: EVERY non-name position of `{ a(x: 1) @d b { c } }` (10 positions) is reached by today's traversal,
     so `edits_today` applies to all of them; in the executable witness 14 positions are reached and 11 are not (W1–W3) -/
 example : (pathsNode witnessSmall).length = 10 ∧
-    (pathsNode witnessSmall).all (fun p => reachB table "_visit_document" witnessSmall p) = true := by decide +kernel
-example : ((pathsNode witnessExec).filter (fun p => reachB table "_visit_document" witnessExec p)).length = 14 ∧
-    ((pathsNode witnessExec).filter (fun p => !reachB table "_visit_document" witnessExec p)).length = 11 := by decide +kernel
-example : ReachV table witnessSmall pathB :=
-  ⟨"_visit_document", by decide +kernel, reachB_sound table _ _ _ (by decide +kernel)⟩
+    (pathsNode witnessSmall).all (fun p => reachVB table witnessSmall p) = true := by decide +kernel
+example : ((pathsNode witnessExec).filter (fun p => reachVB table witnessExec p)).length = 14 ∧
+    ((pathsNode witnessExec).filter (fun p => !reachVB table witnessExec p)).length = 11 := by decide +kernel
+example : ReachV table witnessSmall pathB := reachVB_sound table _ _ (by decide +kernel)
 
 end PyGql.Props.C18
